@@ -1,7 +1,7 @@
 (** Tree/TreeSteps — the flag invariant for the remaining operations (acceptBlockHeader of both trees,
     acceptBlock, removePayloads) and the step theorem for EVERY operation of both tree kinds. *)
 From Coq Require Import ZArith NArith List Bool Lia.
-From VB Require Import Tree.TreeDefs Tree.TreeInv Tree.TreePass Tree.TreeProofs.
+From VB Require Import Tree.TreeDefs Tree.TreeInv Tree.TreePass Tree.TreeProofs Tree.TreeMono.
 Import ListNotations.
 
 Lemma upd_upd id f g l : upd id g (upd id f l) = upd id (fun s => g (f s)) l.
@@ -44,24 +44,26 @@ Qed.
 (* ------------------------------------------------------------------ insertBlockHeader *)
 Lemma insert_header_inv s id parent w s' : Inv_flags s ->
   (find_blk id (blocks s) = None -> find_blk parent (blocks s) <> None) ->
-  insert_header s id parent w = Done s' -> Inv_flags s' /\ tkind s' = tkind s /\ tip s' = tip s.
+  insert_header s id parent w = Done s' -> Inv_flags s' /\ tkind s' = tkind s /\ tip s' = tip s /\ mono (blocks s) (blocks s').
 Proof.
   intros I HP. pose proof I as [W H F L]. unfold insert_header.
   destruct (find_blk id (blocks s)) as [x|] eqn:Fx.
-  - destruct (deleted (bst x)) eqn:Dx; [|intros E; inversion E; subst; auto].
+  - destruct (deleted (bst x)) eqn:Dx; [|intros E; inversion E; subst; auto using mono_refl].
     set (l1 := upd id (set_deleted false) (blocks s)).
     pose proof (find_blk_bid _ _ _ Fx) as Bx.
     assert (F1 : find_blk id l1 = Some (with_st x (set_deleted false (bst x)))).
     { unfold l1. rewrite find_upd, Fx. simpl. rewrite Bx, N.eqb_refl. reflexivity. }
     rewrite F1. intros E. bind_inv E. destruct a as [c b]. inversion E; subst s'; clear E. simpl.
-    split; [|auto]. unfold l1. rewrite upd_upd.
+    unfold l1. rewrite upd_upd.
     destruct (raise_validity_fl _ _ _ _ _ E0) as (B & P & C & _ & _). simpl in B, P, C.
     assert (Lx : lvP (bst x)) by (unfold lv_ok in L; rewrite Forall_forall in L; apply L; eapply find_blk_In; eauto).
     assert (LC : lvP c).
     { eapply raise_tree_lvP; eauto; simpl; auto. destruct Lx as [_ Lx]. auto. }
-    eapply inv_of_fl_le_tree; [exact I|]. simpl. eapply upd_const_fl_le; eauto.
+    assert (FL : fl_le (blocks s) (upd id (fun _ => c) (blocks s))) by (eapply upd_const_fl_le; eauto).
+    split; [eapply inv_of_fl_le_tree; [exact I|exact FL]|]. repeat split; auto. apply fl_le_mono, FL.
   - destruct (find_blk parent (blocks s)) as [p|] eqn:Fp; [|exfalso; apply (HP eq_refl); reflexivity].
-    intros E. bind_inv E. destruct a as [c b]. inversion E; subst s'; clear E. simpl. split; [|auto].
+    intros E. bind_inv E. destruct a as [c b]. inversion E; subst s'; clear E. simpl.
+    split; [|repeat split; auto; apply mono_cons; exact Fx].
     match goal with R : raise_validity _ ?x0 _ = Done _ |- _ => set (X0 := x0) in * end.
     destruct (raise_validity_fl _ _ _ _ _ E0) as (B & P & C & _ & _). simpl in B, P, C.
     assert (LC : lvP c) by (eapply raise_tree_lvP; eauto; reflexivity).
@@ -74,7 +76,7 @@ Qed.
 
 (* ------------------------------------------------------------------ ALT: acceptBlockHeader *)
 Theorem alt_hdr_inv s id parent s' res : Inv_flags s -> alt_hdr s id parent = Done (s', res) ->
-  Inv_flags s' /\ tip s' = tip s.
+  Inv_flags s' /\ tip s' = tip s /\ mono (blocks s) (blocks s').
 Proof.
   intros I. unfold alt_hdr.
   assert (K : forall par s1, find_blk par (blocks s) <> None -> insert_header s id par 0 = Done s1 ->
@@ -82,18 +84,18 @@ Proof.
                       | Some st => if is_valid L_TREE st
                                    then Done (with_tips s1 (try_add_tip (tkind s1) (blocks s1) (tips s1) id), ROk)
                                    else Done (s1, RFailChain)
-                      | None => Abort end = Done (s', r) -> Inv_flags s' /\ tip s' = tip s).
-  { intros par s1 HP E r. destruct (insert_header_inv s id par 0 s1 I (fun _ => HP) E) as (I1 & _ & T1).
+                      | None => Abort end = Done (s', r) -> Inv_flags s' /\ tip s' = tip s /\ mono (blocks s) (blocks s')).
+  { intros par s1 HP E r. destruct (insert_header_inv s id par 0 s1 I (fun _ => HP) E) as (I1 & _ & T1 & M1).
     destruct (st_of (blocks s1) id); [|discriminate].
     destruct (is_valid L_TREE s0); intros E2; inversion E2; subst; simpl; split; auto.
     eapply inv_same_blocks; [|exact I1]. reflexivity. }
   destruct (find_blk id (blocks s)) as [x|] eqn:Fx.
   - destruct (deleted (bst x)); [|discriminate]. destruct (bparent x) as [p0|]; [|discriminate].
     destruct (find_blk p0 (blocks s)) as [p|] eqn:Fp; [|discriminate].
-    destruct (deleted (bst p)); [intros E; inversion E; subst; auto|].
+    destruct (deleted (bst p)); [intros E; inversion E; subst; auto using mono_refl|].
     intros E. bind_inv E. eapply (K p0 a); eauto. rewrite Fp. discriminate.
-  - destruct (find_blk parent (blocks s)) as [p|] eqn:Fp; [|intros E; inversion E; subst; auto].
-    destruct (deleted (bst p)); [intros E; inversion E; subst; auto|].
+  - destruct (find_blk parent (blocks s)) as [p|] eqn:Fp; [|intros E; inversion E; subst; auto using mono_refl].
+    destruct (deleted (bst p)); [intros E; inversion E; subst; auto using mono_refl|].
     intros E. bind_inv E. eapply (K parent a); eauto. rewrite Fp. discriminate.
 Qed.
 
@@ -212,10 +214,10 @@ Lemma pow_hdr_tail s id par w p s1 s' res : Inv_flags s ->
     else
       let s2 := mkTree (tkind s) l2 (try_add_tip (tkind s) l2 (tips s1) id) (tip s1) (applied s1) in
       Done (pow_determine_best s2 id, ROk)
-  end = Done (s', res) -> Inv_flags s'.
+  end = Done (s', res) -> Inv_flags s' /\ (tip_ok s -> tip_ok s').
 Proof.
   intros I HX Fp Dp N E1 E2. pose proof I as [W _ _ L].
-  destruct (insert_header_inv s id par w s1 I) as (I1 & _ & _); auto.
+  destruct (insert_header_inv s id par w s1 I) as (I1 & _ & T1 & M1); auto.
   { intros _. rewrite Fp. discriminate. }
   destruct (insert_header_facts s id par w s1 p W HX Fp N E1) as (PX & Fp1 & _).
   pose proof I1 as [W1 H1 F1 L1].
@@ -230,14 +232,21 @@ Proof.
       destruct (L p (find_blk_In _ _ _ Fp)) as [La _]. specialize (La Dp).
       unfold valid_upto, L_TREE in V. apply negb_true_iff, N.leb_gt in V. lia. }
     pose proof (fl_ok_find _ W1 F1 id x1 par p Fx1 (PX x1 eq_refl) Fp1 Fd) as Cx.
-    eapply inv_of_fl_eq_tree; [exact I1|]. simpl.
-    eapply upd_const_fl_eq; eauto; simpl; try congruence;
-      try (intros Hl; apply lvP_set_fchild; auto).
-  - inversion E2; subst s'; clear E2. apply pow_determine_best_inv.
-    eapply inv_of_fl_eq_tree; [exact I1|]. simpl. eapply upd_const_fl_eq; eauto.
+    assert (FE : fl_eq (blocks s1) (upd id (fun _ => set_fchild true c) (blocks s1))).
+    { eapply upd_const_fl_eq; eauto; simpl; try congruence; try (intros Hl; apply lvP_set_fchild; auto). }
+    split; [eapply inv_of_fl_eq_tree; [exact I1|exact FE]|].
+    intros T. eapply tip_ok_same; [exact T| |simpl; exact T1].
+    simpl. eapply mono_trans; [exact M1|apply fl_eq_mono, FE].
+  - inversion E2; subst s'; clear E2.
+    assert (FE : fl_eq (blocks s1) (upd id (fun _ => c) (blocks s1))) by (eapply upd_const_fl_eq; eauto).
+    split.
+    + apply pow_determine_best_inv. eapply inv_of_fl_eq_tree; [exact I1|exact FE].
+    + intros T. apply pow_determine_best_tip_ok. rewrite T1. eapply tip_ok_mono; [exact T|].
+      eapply mono_trans; [exact M1|apply fl_eq_mono, FE].
 Qed.
 
-Theorem pow_hdr_inv s id parent w s' res : Inv_flags s -> pow_hdr s id parent w = Done (s', res) -> Inv_flags s'.
+Theorem pow_hdr_inv s id parent w s' res : Inv_flags s -> pow_hdr s id parent w = Done (s', res) ->
+  Inv_flags s' /\ (tip_ok s -> tip_ok s').
 Proof.
   intros I. pose proof I as [W _ _ _]. unfold pow_hdr.
   destruct (find_blk id (blocks s)) as [x|] eqn:Fx.
